@@ -137,6 +137,10 @@ func c04GenFile(r *Rng, idx int, le string, nfiles int) c04File {
 	emit(nx(), fmt.Sprintf("for %si = 1, %salpha do print(%si, %sbeta) end", pre, pre, pre, pre))
 	emit(nx(), fmt.Sprintf("%sTab = {} function %sTab.method(%sself2, %sarg) return %sarg end", pre, pre, pre, pre, pre))
 	emit(nx(), fmt.Sprintf("print(%sTab.method(%sTab, %salpha), %sDup(1, 2))", pre, pre, pre, pre))
+	// multi-level targets whose middle level is created implicitly by the assignment
+	emit(nx(), fmt.Sprintf("%sGlob.%smid.%sleaf = 8080", pre, pre, pre))
+	emit(nx(), fmt.Sprintf("function %sTab.%sdeep.%sfn(%sz) return %sz end", pre, pre, pre, pre, pre))
+	emit(nx(), fmt.Sprintf("print(%sGlob.%smid.%sleaf, %sTab.%sdeep.%sfn(1))", pre, pre, pre, pre, pre, pre))
 	// uses of another file's globals: every answer for them has to lie in (and name text of) the right document
 	if nfiles > 1 {
 		o := fmt.Sprintf("f%d", (idx+1)%nfiles)
